@@ -10,6 +10,7 @@ import SmoothProofs.C19Sparse
 import SmoothProofs.C19Leaves
 import SmoothProofs.C19Writes
 import SmoothProofs.C19Ad
+import SmoothProofs.C19Bundle
 
 open Lin Scalar Mem Sparse
 
@@ -44,16 +45,11 @@ theorem pattern_covers_support_hessian (d : GDesc) (a : Vec ℝ (GDesc.model (α
   have hd := model_dof (α := ℝ) d
   exact ⟨d2r_exp_cov d a r c (hd ▸ hr) (hd ▸ hc) hp, d2r_expinv_cov d a r c (hd ▸ hr) (hd ▸ hc) hp⟩
 
-/-- the full statement for `ad_sparse_pattern` (every descriptor) -/
-def ad_pattern_covers_support_statement : Prop :=
-  ∀ (d : GDesc) (a : Vec ℝ (GDesc.model (α := ℝ) d).dof) (r c : Nat),
-    r < dofSize d → c < dofSize d → (r, c) ∉ adPattern d → getN ((GDesc.model d).ad a) r c = 0
-
-/-- **ad_sparse_pattern ⊇ support of ad** for every descriptor without a Galilei leaf (SO2, SO3, SE2,
-    SE3, C1, Rⁿ, SE_K_3 for every k, and all their Bundles).  Missing for the full statement: the
-    symbolic lemma for the 10×10 Galilei `ad` (its pattern is tied by T2 and audited on samples). -/
-theorem ad_pattern_covers_support_partial (d : GDesc) (hg : noGal d = true)
-    (a : Vec ℝ (GDesc.model (α := ℝ) d).dof) (r c : Nat)
+/-- **ad_sparse_pattern ⊇ support of ad** for EVERY descriptor (SO2, SO3, SE2, SE3, C1, Rⁿ, Galilei,
+    SE_K_3 for every k, and all their Bundles, nested or not) and all tangents over ℝ: every entry
+    outside the published `ad_sparse_pattern` vanishes in the dense `ad a` (linearity in `a` is not
+    even needed: the entry is identically zero). -/
+theorem ad_pattern_covers_support (d : GDesc) (a : Vec ℝ (GDesc.model (α := ℝ) d).dof) (r c : Nat)
     (hr : r < dofSize d) (hc : c < dofSize d) (h : (r, c) ∉ adPattern d) :
     getN ((GDesc.model d).ad a) r c = 0 := by
   have hp : inAd d r c = false := by
@@ -61,7 +57,7 @@ theorem ad_pattern_covers_support_partial (d : GDesc) (hg : noGal d = true)
     | false => rfl
     | true => exact absurd ((mem_gridFilter _ _ _ r c).2 ⟨hr, hc, hq⟩) h
   have hd := model_dof (α := ℝ) d
-  exact ad_cov d hg a r c (hd ▸ hr) (hd ▸ hc) hp
+  exact ad_cov d a r c (hd ▸ hr) (hd ▸ hc) hp
 
 section block
 variable {α : Type} [Scalar α]
@@ -140,6 +136,44 @@ theorem values_equal_dense (d : GDesc) (inv : Bool) (m : SpMat α) (a : Array α
   have := hv _ hmem
   simpa [memoM_eq] using this
 
+
+/-- **values_equal_dense for every descriptor, Bundles included** (any nesting, commutative parts,
+    tangent segment offsets and block offsets as the C++ passes them): when the host contains the
+    shifted block, then for EVERY entry `(r, c)` of the published pattern of the whole descriptor the
+    result holds at `(i0 + r, i0 + c)` exactly the dense model value `dr_exp a r c` (resp.
+    `dr_expinv`) of the WHOLE descriptor — for `Bundle.prod A B` the dense `prod` value at the
+    shifted indices (`Sparse.prod_block_values`), lifted by induction over `Bundle.bundle ps`. -/
+theorem values_equal_dense_all (d : GDesc) (inv : Bool) (m : SpMat α) (a : Array α) (i0 : Nat)
+    (hhost : ∀ k ∈ dPattern d, SpMat.hasKey (i0 + k.1, i0 + k.2) m.entries = true)
+    (r c : Nat) (hrc : (r, c) ∈ dPattern d) :
+    (drExpSparse d inv m a i0).get? (i0 + r) (i0 + c)
+      = some (getN (selJ inv (GDesc.model (α := α) d) (ofArray _ a 0)) r c) := by
+  have hpat := (mem_gridFilter _ _ _ r c).1 hrc
+  have hkeys : ∀ w ∈ dWrites inv d a 0 i0, SpMat.hasKey (w.1, w.2.1) m.entries = true := by
+    intro w hw
+    obtain ⟨r', c', hm, e1, e2⟩ := writes_inside_block d inv a i0 w hw
+    rw [e1, e2]
+    exact hhost (r', c') hm
+  obtain ⟨w, hw, e1, e2⟩ := dWrites_covers inv d a 0 i0 r c hpat.1 hpat.2.1 hpat.2.2
+  obtain ⟨r', c', _, _, _, f1, f2, f3⟩ := dWrites_hasValue inv d a 0 i0 w hw
+  have hr' : r' = r := by omega
+  have hc' : c' = c := by omega
+  subst hr'; subst hc'
+  have hv := SpMat.blockWrite_values m (dWrites inv d a 0 i0) hkeys (dWrites_nodup inv d a 0 i0) w hw
+  unfold drExpSparse
+  rw [← e1, ← e2, hv, f3]
+
+/-- the product step on its own: the block of `Bundle.prod A B` is `A`'s dense value in the
+    top-left and `B`'s dense value (tangent segment at `ao + A.dof`) at the indices shifted by `A.dof` -/
+theorem prod_values (inv : Bool) (A B : LieModel α) (a : Array α) (ao : Nat) :
+    (∀ r c, r < A.dof → c < A.dof →
+      getN (selJ inv (Bundle.prod A B) (ofArray (A.dof + B.dof) a ao)) r c
+        = getN (selJ inv A (ofArray A.dof a ao)) r c)
+    ∧ (∀ r c, r < B.dof → c < B.dof →
+      getN (selJ inv (Bundle.prod A B) (ofArray (A.dof + B.dof) a ao)) (A.dof + r) (A.dof + c)
+        = getN (selJ inv B (ofArray B.dof a (ao + A.dof))) r c) :=
+  ⟨(prod_block_values inv A B a ao).1, fun r c hr hc => (prod_block_values inv A B a ao).2 A.dof rfl r c hr hc⟩
+
 /-- commutative groups: the block is the identity (`sp.coeffRef(i0+i, i0+i) = 1`) -/
 theorem values_equal_dense_commutative (n i0 : Nat) (m : SpMat α)
     (hhost : ∀ i, i < n → SpMat.hasKey (i0 + i, i0 + i) m.entries = true) (i : Nat) (hi : i < n) :
@@ -184,7 +218,7 @@ example : (2, 0) ∉ dPattern .se2 ∧ (2, 1) ∉ dPattern .se2 := by decide
 example : adPattern .so3 = [(1, 0), (2, 0), (0, 1), (2, 1), (0, 2), (1, 2)] := by decide
 example : (d2Pattern .se2).length = 10 ∧ (d2Pattern .se3).length = 108 ∧ (dPattern .se3).length = 27 := by decide
 example : dPattern (.bundle [.tn 1, .se2]) = [(0, 0), (1, 1), (2, 1), (1, 2), (2, 2), (1, 3), (2, 3), (3, 3)] := by decide
-example : noGal (.bundle [.se3, .tn 3, .bundle [.sek3 2, .so3]]) = true := by decide
+example : (adPattern .gal).length = 33 ∧ (adPattern (.bundle [.gal, .tn 4])).length = 33 := by decide
 /-- a present entry is overwritten, a missing one is inserted and compression is lost -/
 example : ((⟨2, 2, [((0, 0), (5 : Nat)), ((1, 1), 6)], true⟩ : SpMat Nat).coeffRef 1 1 9).entries = [((0, 0), 5), ((1, 1), 9)]
     ∧ ((⟨2, 2, [((0, 0), (5 : Nat)), ((1, 1), 6)], true⟩ : SpMat Nat).coeffRef 1 0 9).entries
